@@ -155,7 +155,25 @@ def fam_dir(tier):
                          E('body', (), *kids, E('div', (('dir', 'rtl'),), E('iframe', (), inner), E('iframe', (), inner_rtl)))),))
 
 
-FAMILIES = [fam_disabled, fam_flags, fam_default, fam_radio, fam_placeholder, fam_range, fam_dir]
+def fam_deep_iframe(tier):
+    """A form whose first part ends in an iframe that is a last child 0..3 levels down; the controls that decide the answer come after it."""
+    inner = E('html', (), E('body', (), E('form', (), I(type='submit'), I(type='radio', name='n', checked='')), E('p', (), ('t', 'x'))))
+    ifr = E('iframe', (), inner)
+    tails = [(I(type='radio', name='n', checked=''),), (I(type='submit'), I(type='radio', name='n')), (E('div', (), I(type='submit')), I(type='radio', name='n', checked='')),
+             (E('fieldset', (('disabled', ''),), I()), I(type='checkbox', checked=''))]
+    for depth in range(0, 4):
+        nest = ifr
+        for d in range(depth):
+            nest = E(('div', 'p', 'span')[d % 3], (), nest)
+        for ws in (False, True):
+            for tail in tails:
+                for head in ((I(type='radio', name='n'),), (I(type='radio', name='n'), I(type='button')), ()):
+                    body = head + ((nest, ('t', ' ')) if ws else (nest,)) + tail
+                    yield ('radio', (E('html', (), E('body', (), E('form', (), *body), I(type='radio', name='n'))),))
+                    yield ('default', (E('form', (), *body),))
+
+
+FAMILIES = [fam_disabled, fam_flags, fam_default, fam_radio, fam_placeholder, fam_range, fam_dir, fam_deep_iframe]
 
 
 def shards(tier, seed):
